@@ -133,11 +133,13 @@ def entries():
     add('unpack', 1, lambda a, b: etl.unpack(a, 't', ['t1', 't2']), S)
     add('unpackdict', 1, lambda a, b: etl.unpackdict(etl.convert(a, 't', lambda v: {'p': v[0], 'q': v[1]}), 't', keys=['p', 'q']), S)
     add('unpackdict(sample)', 1, lambda a, b: etl.unpackdict(etl.convert(a, 't', lambda v: {'p': v[0], 'q': v[1]}), 't', samplesize=2), S, 'sample', slack=4)
+    add('unpackdict(samplesize=1)', 1, lambda a, b: etl.unpackdict(etl.convert(a, 't', lambda v: {'p': v[0], 'q': v[1]}), 't', samplesize=1), S, 'sample', slack=4)
     add('unpackdict(sample, no dicts)', 1, lambda a, b: etl.unpackdict(etl.convert(a, 't', lambda v: None), 't', samplesize=2), S, 'sample', slack=4)
     # --- reshape
     add('melt', 1, lambda a, b: etl.melt(a, 'k'), S, fan=3)
     add('melt(variables)', 1, lambda a, b: etl.melt(a, key=['k', 's'], variables=['n']), S)
     add('recast', 1, lambda a, b: etl.recast(etl.melt(etl.cut(a, 'n', 's', 't'), 'n'), samplesize=2), B)
+    add('recast(samplesize=1)', 1, lambda a, b: etl.recast(etl.melt(etl.cut(a, 'n', 's', 't'), 'n'), samplesize=1), B)
     add('transpose', 1, lambda a, b: etl.transpose(a), B)
     add('pivot', 1, lambda a, b: etl.pivot(a, 'k', 's', 'n', sum), B, K)
     add('flatten', 1, lambda a, b: etl.flatten(a), B)      # returns an iterator-like view over values
@@ -159,6 +161,18 @@ def entries():
         add(f, 2, (lambda f: lambda a, b: getattr(etl, f)(a, b, key='k'))(f), S, 'probe-left',
             need=(lambda k: k + 5) if f == 'hashantijoin' else None)       # first unmatched probe row is row 4, then 7, 8, 9...
     add('hashrightjoin', 2, lambda a, b: etl.hashrightjoin(a, b, key='k'), S, 'probe-right')
+    add('hashrightjoin(nocache)', 2, lambda a, b: etl.hashrightjoin(a, b, key='k', cache=False), S, 'probe-right')
+    add('hashleftjoin(nocache)', 2, lambda a, b: etl.hashleftjoin(a, b, key='k', cache=False), S, 'probe-left')
+    # compound keys: the right table gets the fields (k, s, w), sharing k and s with the left one
+    rb = lambda b: etl.addfield(etl.rename(b, 'm', 's'), 'w', 9)
+    for f in ('join', 'leftjoin', 'rightjoin', 'outerjoin', 'antijoin', 'lookupjoin'):
+        add(f + '(compound)', 2, (lambda f: lambda a, b: getattr(etl, f)(a, rb(b), key=('k', 's')))(f), B, K)
+    add('lookupjoin(natural compound)', 2, lambda a, b: etl.lookupjoin(a, rb(b)), B, K, H)
+    add('leftjoin(natural compound)', 2, lambda a, b: etl.leftjoin(a, rb(b)), B, K, H)
+    for f in ('hashjoin', 'hashleftjoin', 'hashlookupjoin', 'hashantijoin'):
+        add(f + '(compound)', 2, (lambda f: lambda a, b: getattr(etl, f)(a, rb(b), key=('k', 's')))(f), S, 'probe-left',
+            need=(lambda k: k + 5))
+    add('hashrightjoin(compound)', 2, lambda a, b: etl.hashrightjoin(a, rb(b), key=('k', 's')), S, 'probe-right')
     add('hashjoin(nocache)', 2, lambda a, b: etl.hashjoin(a, b, key='k', cache=False), S, 'probe-left')
     # --- setops
     add('complement', 2, lambda a, b: etl.complement(etl.cut(a, 'k'), etl.cut(b, 'k')), B, K)
